@@ -1,14 +1,17 @@
 #!/bin/sh
-# tools/try_mutant.sh <patch.diff> <Cxx> [tier]  -- apply a seeded change to /repo, run the check, undo it.
-# Prints: MUTANT <patch> <prop> rc=<rc> violations=<n>.  Never leaves /repo modified.
-P="$1"; C="$2"; T="${3:-quick}"
-cd /repo || exit 2
-if [ -n "$(git status --porcelain -- Fastor)" ]; then echo "repo not clean"; exit 2; fi
-git apply "$P" || { echo "patch does not apply"; exit 2; }
+# tools/try_mutant.sh <patch.diff> <Cxx> [tier]  -- run a check against a seeded change.
+# The change is applied to a scratch copy of /repo (git worktree-free: plain copy of the tracked tree) and the check is
+# pointed at it with VERIF_REPO, so /repo itself is never modified and concurrent runs are not disturbed.
+# Prints: MUTANT <patch> <prop> rc=<rc> violations=<n>.
+P="$(readlink -f "$1")"; C="$2"; T="${3:-quick}"
+S=/tmp/mutrepo_$$
+rm -rf "$S"; mkdir -p "$S"
+git -C /repo archive HEAD | tar -x -C "$S" || exit 2
+( cd "$S" && patch -p1 -s < "$P" ) || { echo "patch does not apply"; rm -rf "$S"; exit 2; }
 cd /verif
-VERIF_NO_EVIDENCE=1 timeout 3000 ./check "$C" --tier "$T" > /tmp/mut_$C.log 2>&1
+VERIF_REPO="$S" VERIF_NO_EVIDENCE=1 timeout 3000 ./check "$C" --tier "$T" > /tmp/mut_$C.log 2>&1
 rc=$?
-git -C /repo checkout -- . 
+rm -rf "$S"
 n=$(grep -c "^VIOLATION" /tmp/mut_$C.log)
 echo "MUTANT $P $C rc=$rc violations=$n"
 grep "^VIOLATION" /tmp/mut_$C.log | head -3
